@@ -64,5 +64,6 @@ extern long h_live_blocks;
 extern long h_alloc_errors;
 extern char h_alloc_msg[256];
 extern long h_alloc_calls, h_realloc_calls, h_free_calls;
+size_t h_block_size(void *p);          /* ledger size of a live block, (size_t)-1 if unknown */
 
 #endif
